@@ -10,6 +10,7 @@ boundary is recorded (``ctx.trace``).
 from __future__ import annotations
 
 import asyncio
+import json
 import os
 import copy
 from dataclasses import dataclass, field
@@ -67,6 +68,9 @@ class Ctx:
         self.max_requests = 800  # (a run of the families needs well under 200 requests; more is reported as livelock)
         self.has_out = set()
         self.internal: Optional[list] = None  # filled by harness.internal when enabled
+        self.wake: Optional[list] = None  # filled by harness.wake when enabled (Progress.set / _add_trigger calls)
+        self.wake_init: dict = {}
+        self.wake_truncated = False
         self.last_reply: Dict[tuple, Any] = {}
         self.stubs: Dict[str, Any] = {}  # fake-stream remote stubs by sid
         self.rt = scn.get("rt")  # real-time configuration or None
@@ -307,6 +311,9 @@ StarterCollection()["vscripted"] = _starter
 def build_world(ctx: Ctx, loop, world_kw=None, connect_order=None):
     scn = ctx.scn
     kw = dict(skip_greetings=True, cache=scn["cache"], asyncio_loop=loop, max_loop_iterations=scn["maxloop"])
+    if scn.get("maxloop_late") is not None:
+        # the bound is a public attribute of the World: constructed with another value, ASSIGNED after the simulators were started
+        kw["max_loop_iterations"] = scn["maxloop_late"]
     if scn.get("debug"):
         kw["debug"] = True
     if scn.get("time_resolution") is not None:
@@ -355,7 +362,20 @@ def build_world(ctx: Ctx, loop, world_kw=None, connect_order=None):
             with world.group():
                 visit(path + (c,))
 
+    if scn.get("abandoned_group"):
+        # a group block that is left by an exception which the scenario script catches (e.g. a failed start or connect inside the
+        # block): everything started afterwards is, by the program text, outside that group
+        class _Abandon(Exception):
+            pass
+
+        try:
+            with world.group():
+                raise _Abandon()
+        except _Abandon:
+            pass
     visit(())
+    if scn.get("maxloop_late") is not None:
+        world.max_loop_iterations = scn["maxloop"]
     conns = list(scn["conns"])
     if connect_order is not None:
         conns = [conns[i] for i in connect_order]
@@ -503,6 +523,15 @@ def named_sims(scn, msg) -> list:
     return [s["sid"] for s in scn["sims"] if re.search(r"(?<![A-Za-z0-9_])" + re.escape(s["sid"]) + r"(?![A-Za-z0-9_])", msg)]
 
 
+def hash_parity(ctx) -> bool:
+    """A reproducible coin per execution (policy seed if the policy has one, else the scenario)."""
+    import zlib
+
+    sd = getattr(ctx.policy, "seed", None)
+    key = repr(sd) if sd is not None else json.dumps(ctx.scn, sort_keys=True, default=str)
+    return zlib.crc32(key.encode()) % 2 == 0
+
+
 def make_controller(ctx: Ctx):
     def controller(quiescent: bool) -> bool:
         ctx.ncall += 1
@@ -547,6 +576,12 @@ def execute(scn: dict, behaviour, policy, run_kw=None, world_kw=None, connect_or
             from . import internal
 
             internal.attach(ctx)
+            try:
+                from . import wake
+
+                wake.attach(ctx)
+            except Exception:  # noqa: BLE001  (the wake-up layer is optional: unavailable = drift)
+                ctx.wake = None
         kw = dict(until=scn["until"], print_progress=False, lazy_stepping=scn["lazy"])
         kw.update(run_kw or {})
         restore = []
@@ -598,9 +633,25 @@ def execute(scn: dict, behaviour, policy, run_kw=None, world_kw=None, connect_or
 
             hid = logger.add(sink, level="WARNING", format="{message}")
             restore.append(lambda: logger.remove(hid))
+        if not scn.get("rt") and all((x.get("transport") or scn.get("transport") or "async") in ("async", "local") for x in scn["sims"]):
+            # half of the executions: simulators that take longer to answer than any timer the scheduler sets while it waits
+            # (only during the run phase, not in real-time mode, not over the stream transport whose stop() uses a timeout)
+            nfired = [0]
+
+            def timers_first():
+                if ctx.pending and getattr(ctx, "in_run", False) and hash_parity(ctx) and nfired[0] < 50:
+                    nfired[0] += 1
+                    return True
+                return False
+
+            loop.timers_first = timers_first
         try:
             with _Watchdog():
-                world.run(**kw)
+                ctx.in_run = True
+                try:
+                    world.run(**kw)
+                finally:
+                    ctx.in_run = False
             ctx.outcome = {"r": "ok", "msg": "", "phase": "run"}
         except BaseException as e:  # noqa: BLE001
             ctx.outcome = dict(classify(e), phase="run")
